@@ -30,24 +30,25 @@ Section Dict.
   Definition keys (d : dict) : list string := map fst d.
   Definition vals (d : dict) : list A := map snd d.
 
-  (* sorted(d.items(), key=lambda kv: kv[0]) : stable insertion sort on the key *)
-  Fixpoint ins_kv (x : string * A) (l : dict) : dict :=
-    match l with
-    | [] => [x]
-    | y :: r => if sleb (fst x) (fst y) then x :: y :: r else y :: ins_kv x r
-    end.
-  Fixpoint sort_kv (l : dict) : dict :=
-    match l with [] => [] | x :: r => ins_kv x (sort_kv r) end.
 End Dict.
 Arguments dict A : clear implicits.
 
-Fixpoint ins_s (x : string) (l : list string) : list string :=
-  match l with
-  | [] => [x]
-  | y :: r => if sleb x y then x :: y :: r else y :: ins_s x r
-  end.
-Fixpoint sort_s (l : list string) : list string :=
-  match l with [] => [] | x :: r => ins_s x (sort_s r) end.
+(* sorted(xs, key=...) : stable insertion sort on a string key *)
+Section SortBy.
+  Context {X : Type} (key : X -> string).
+  Fixpoint ins_by (x : X) (l : list X) : list X :=
+    match l with
+    | [] => [x]
+    | y :: r => if sleb (key x) (key y) then x :: y :: r else y :: ins_by x r
+    end.
+  Fixpoint sort_by (l : list X) : list X :=
+    match l with [] => [] | x :: r => ins_by x (sort_by r) end.
+End SortBy.
+
+(* sorted(d.items(), key=lambda kv: kv[0]) *)
+Definition sort_kv {A : Type} (l : dict A) : dict A := sort_by (@fst string A) l.
+(* sorted(strings) *)
+Definition sort_s (l : list string) : list string := sort_by (fun x => x) l.
 
 Fixpoint smem (x : string) (l : list string) : bool :=
   match l with [] => false | y :: r => String.eqb x y || smem x r end.
